@@ -1,9 +1,10 @@
 import BornoModel.Cli
 import BornoModel.Lemmas.ParseSoundStmt
+import BornoModel.Lemmas.ParseCompleteStmt
 import BornoModel.Props.C09
 /-! # C08 — the front end is total, accepts exactly the documented language, runs nothing else -/
 namespace Borno.Props.C08
-open Borno Parser Cli
+open Borno Parser Cli Grammar
 
 /-- totality: lexing and parsing are total functions of the text (every Lean definition terminates);
     the front end always classifies: either no diagnostic, or at least one -/
@@ -111,6 +112,34 @@ theorem accepted_text_is_rendering (lm : Char → Bool) (hlm : lm '\n' = false) 
         simp at this
   subst key
   exact ⟨pre, e, hsplit, he, hren⟩
+
+/-- the converse of `accepted_is_rendering` — **every text of the documented grammar is accepted**:
+    for every well-formed program tree (`wfSs`: expressions fit the ladder, `ধরি` lists have their
+    shape, declared names are not reserved, at most 255 parameters, arms and loop bodies are
+    statements, `else` on the nearest `if`, expression statements do not begin with `{`), `Parse`
+    applied to its rendering returns that tree, with no diagnostic, for all large enough fuel -/
+theorem every_wellformed_program_is_accepted (p : List Stmt) (hw : wfSs p = true) :
+    ∃ f0, ∀ f, f0 ≤ f → program f (toksSs p ++ [tk (kw .EOF)]) = .ok (eraseSs p) [tk (kw .EOF)] [] :=
+  program_complete p hw
+
+/-- and the tree is determined by the text: two well-formed programs with the same rendering are
+    the same program (up to line fields) -/
+theorem program_tree_unique (p q : List Stmt) (hp : wfSs p = true) (hq : wfSs q = true) (h : rStmts p = rStmts q) :
+    eraseSs p = eraseSs q := program_rendering_injective p q hp hq h
+
+/-- non-vacuity: a program with a function, a `ধরি` list, a `ফর` loop with all three clauses, an
+    `if`/`else` chain, a block and a `return` is well-formed; the dangling-else tree that puts the
+    `else` on the outer `if` is not -/
+example :
+    let n (k : Nat) : Expr := .literal .nil k
+    let x : Expr := .ident ['x'] 1
+    wfSs [.funS ['f'] [['a'], ['b']] [.varList [⟨['u'], 1, some (n 1)⟩, ⟨['v'], 1, none⟩],
+            .forS (some (.var ⟨['i'], 1, some (n 0)⟩)) (some x) (some (.assign ['i'] 1 (n 2) 1))
+              (.block [.ifS x (.print x) (some (.ifS x (.breakS 1) (some (.continueS 1))))]),
+            .returnS 1 (some x)],
+          .expr (.call (.ident ['f'] 1) 1 [n 1, n 2])] = true ∧
+    wfSs [.ifS x (.ifS x (.print x) none) (some (.print x))] = false ∧
+    wfSs [.ifS x (.ifS x (.print x) (some (.print x))) none] = true := by decide
 
 /-- totality of the lexer half of the front end: every text is tokenised (see C09.scan_total) -/
 theorem lexing_total (lm : Char → Bool) (hlm : lm '\n' = false) (src : List Char) :
